@@ -13,10 +13,10 @@ use rs_store::*;
 use std::collections::HashSet;
 use std::sync::Arc;
 
-pub const N_CALLS: u64 = 17;
-const CALL_NAMES: [&str; 17] = [
+pub const N_CALLS: u64 = 18;
+const CALL_NAMES: [&str; 18] = [
     "with_name(\"alpha\")",
-    "with_name(\"beta\")",
+    "with_name(\" beta \")",
     "with_name(\"\")",
     "with_reducer(R10)",
     "with_reducers([R20,R21])",
@@ -32,6 +32,7 @@ const CALL_NAMES: [&str; 17] = [
     "with_middleware(M10)",
     "with_middlewares([M20,M21])",
     "add_middleware(M30)",
+    "with_name(\" \")",
 ];
 
 #[derive(Clone, Debug, PartialEq)]
@@ -52,7 +53,7 @@ pub fn model(ctor: u8, calls: &[u8]) -> Model {
     for c in calls {
         match c {
             0 => m.name = "alpha".into(),
-            1 => m.name = "beta".into(),
+            1 => m.name = " beta ".into(),
             2 => m.name = "".into(),
             3 => {
                 m.reds = vec![10];
@@ -85,6 +86,7 @@ pub fn model(ctor: u8, calls: &[u8]) -> Model {
             13 => m.pol = POL_LATEST,
             14 => m.mws = vec![10],
             15 => m.mws = vec![20, 21],
+            17 => m.name = " ".into(),
             _ => m.mws.push(30),
         }
     }
@@ -112,7 +114,7 @@ pub fn build(ctx: &Arc<Ctx>, ctor: u8, calls: &[u8]) -> Result<Arc<RStore>, Stor
     for c in calls {
         b = match c {
             0 => b.with_name("alpha".into()),
-            1 => b.with_name("beta".into()),
+            1 => b.with_name(" beta ".into()),
             2 => b.with_name("".into()),
             3 => b.with_reducer(red(ctx, 10)),
             4 => b.with_reducers(vec![red(ctx, 20), red(ctx, 21)]),
@@ -127,6 +129,7 @@ pub fn build(ctx: &Arc<Ctx>, ctor: u8, calls: &[u8]) -> Result<Arc<RStore>, Stor
             13 => b.with_policy(BackpressurePolicy::DropLatest),
             14 => b.with_middleware(mw(ctx, 10)),
             15 => b.with_middlewares(vec![mw(ctx, 20), mw(ctx, 21)]),
+            17 => b.with_name(" ".into()),
             _ => b.add_middleware(m30.clone()),
         };
     }
